@@ -2,6 +2,7 @@ package main
 
 import (
 	"fmt"
+	"go/types"
 	"strings"
 
 	"golang.org/x/tools/go/ssa"
@@ -404,6 +405,115 @@ func runC14(c *Ctx) {
 			n := len(CallsIn(x.fn, "(*txpool.addressTransactions).demoteAfter"))
 			c.Require("C14.R10 demote-on-"+x.what, FuncKey(x.fn), p.Pos(x.fn.Pos()), "later nonces lose processable status on "+x.what, n >= 1, "")
 		}
+	}
+
+	// ---- R12 no stale index lookup: the membership answer (comma-ok flag) and, for an index
+	// whose values are containers (the per-sender lists), the container obtained by a lookup are
+	// not used after a call that may insert into / delete from the same index — an eviction in
+	// between can unregister the list the lookup returned
+	{
+		nLook := 0
+		mutatesIndex := map[string]map[*ssa.Function]bool{}
+		var mutates func(g *ssa.Function, field string, depth int) bool
+		mutates = func(g *ssa.Function, field string, depth int) bool {
+			if g == nil || len(g.Blocks) == 0 || !inScope(g, []string{"pkg/txpool"}) {
+				return false
+			}
+			if mutatesIndex[field] == nil {
+				mutatesIndex[field] = map[*ssa.Function]bool{}
+			}
+			if v, ok := mutatesIndex[field][g]; ok {
+				return v
+			}
+			mutatesIndex[field][g] = false
+			r := false
+			for _, w := range fieldWrites(g, pool, field) {
+				if _, isStore := w.(*ssa.Store); !isStore {
+					r = true
+				}
+			}
+			if !r && depth < 5 {
+				for _, cl := range AllCalls(g) {
+					if mutates(cl.Common().StaticCallee(), field, depth+1) {
+						r = true
+						break
+					}
+				}
+			}
+			mutatesIndex[field][g] = r
+			return r
+		}
+		for _, fn := range p.OwnFuncs {
+			if !inScope(fn, []string{"pkg/txpool"}) || len(fn.Blocks) == 0 || !IsProd(fn) {
+				continue
+			}
+			for _, b := range fn.Blocks {
+				for _, in := range b.Instrs {
+					lk, ok := in.(*ssa.Lookup)
+					if !ok {
+						continue
+					}
+					field := ""
+					if u, ok := lk.X.(*ssa.UnOp); ok {
+						if fa, ok := u.X.(*ssa.FieldAddr); ok {
+							if o, st := ownerOfFieldBase(fa.X.Type()); o == pool && st != nil {
+								field = st.Field(fa.Field).Name()
+							}
+						}
+					}
+					if field == "" {
+						continue
+					}
+					nLook++
+					mt, _ := lk.X.Type().Underlying().(*types.Map)
+					container := false
+					if mt != nil {
+						if pt, ok := mt.Elem().Underlying().(*types.Pointer); ok {
+							if st, ok := pt.Elem().Underlying().(*types.Struct); ok {
+								for i := 0; i < st.NumFields(); i++ {
+									switch st.Field(i).Type().Underlying().(type) {
+									case *types.Map, *types.Slice:
+										container = true
+									}
+								}
+							}
+						}
+					}
+					// membership-dependent values
+					var deps []ssa.Value
+					if lk.CommaOk {
+						for _, r := range *lk.Referrers() {
+							if ex, ok := r.(*ssa.Extract); ok && (ex.Index == 1 || container) {
+								deps = append(deps, ex)
+							}
+						}
+					} else if container {
+						deps = append(deps, lk)
+					}
+					bad := ""
+					for _, cl := range AllCalls(fn) {
+						if _, isGo := cl.(*ssa.Go); isGo {
+							continue
+						}
+						if !mutates(cl.Common().StaticCallee(), field, 0) {
+							continue
+						}
+						if !instrReachesAvoiding(lk, cl, lk) {
+							continue
+						}
+						for _, d := range deps {
+							for _, u := range valueUses(d) {
+								if u != ssa.Instruction(cl) && instrReachesAvoiding(cl, u, lk) {
+									bad = fmt.Sprintf("lookup at %s; %s (may change %s) at %s; lookup result used afterwards at %s", p.InstrPos(lk), CalleeName(cl.Common()), field, p.InstrPos(cl), p.InstrPos(u))
+								}
+							}
+						}
+					}
+					c.Require("C14.R12 no-stale-index-lookup", fmt.Sprintf("%s: lookup of %s #%d", FuncKey(fn), field, nLook), p.InstrPos(lk), "no call that may insert into/delete from the index lies between the lookup and a use of its membership answer (or of the container it returned)", bad == "", bad)
+				}
+			}
+		}
+		c.MinInstances("C14.R12 no-stale-index-lookup", nLook, 3)
 	}
 
 	// ---- R11 heap orderings
